@@ -24,7 +24,11 @@ TRUSTED = [
     "model of what bash does with the fixed script shape (BashModel.step / lookup_case / compgen_W / bash_complete): "
     "validated against the installed bash on every query of every run, not proved about bash",
     "zsh, fish, PowerShell, elvish, nushell are not installed: their scripts are only searched for the tokens in the "
-    "shell-specific syntactic form (python oracle); no model of their generators",
+    "shell-specific syntactic form (python oracle); no model of the zsh/PowerShell/elvish/nushell generators",
+    "fish generator model: Complete/FishModel.v (hand-written from fish.rs; description texts in a decoration parallel "
+    "to the AotTree command tree, dbuild = what Command::build does to them), extraction ExtractFish.v, OCaml driver "
+    "ocaml/fish_driver.ml (readers of the aot and aottext spec formats); tied by comparing the whole generated file byte "
+    "for byte (streams fish-model, fish-model-names)",
 ]
 ASSUMPTIONS = [
     "words on the completed command line contain no IFS white space and no glob characters (the script iterates over an "
@@ -928,17 +932,28 @@ def streams(tier, rng):
 
 
 TECHNIQUE = ("Coq proof (tree-walk soundness/completeness of utils.rs and of the bash generator's transition and case "
-             "tables, by induction over command trees of any depth) + extracted-model/implementation correspondence "
-             "(script, built tree, COMPREPLY under the installed bash) + token oracle for the other five shells")
+             "tables, by induction over command trees of any depth; byte-exact Gallina model of the fish generator with "
+             "mention theorems for the root and both supported subcommand levels) + extracted-model/implementation "
+             "correspondence (bash script, fish file byte for byte, built tree, COMPREPLY under the installed bash) + "
+             "token oracle for all six shells")
 LEVEL_TEXT = ("Machine-checked theorems (Coq 8.16, closed under the global context) about an executable model of "
               "clap_complete's generator/utils.rs and shells/bash.rs: all_subcommands lists exactly the (name or visible "
               "alias, bin path) pairs of every non-root node; shorts/longs/flags/possible_values return exactly the "
               "visible spellings; for mangle_safe trees every path of names or visible aliases drives the generated "
               "cmd,word) table to the function of the addressed node and that function's opts are exactly the node's "
-              "options and subcommand words; the model of bash's reading of the script then replies, for a partial word that is not itself a child's word, exactly the words of the addressed level that start with it (compgen -W = prefix filter).  The model is tied to the real crates on "
-              "every check: the extracted model's bash script, built tree and COMPREPLY lists are compared with the real "
-              "generator's script, Command::build and the installed bash; a python oracle written from the property text "
+              "options and subcommand words; the model of bash's reading of the script then replies, for a partial word that is not itself a child's word, exactly the words of the addressed level that start with it (compgen -W = prefix filter).  "
+              "fish: a byte-exact model of shells/fish.rs (generate, gen_fish_inner, gen_subcommand_helpers, "
+              "value_completion, the escapes) over the built tree; generation is total (fails only on a missing bin name) "
+              "and deterministic; for every tree with a bin name, for the root and every node reached by one or two names "
+              "or visible aliases, every named argument has a line carrying every short/long spelling the accessors "
+              "return (in the class aliases_have_primary: every short, long and visible alias) and every non-hidden "
+              "possible value, and every subcommand name and visible alias has its -a line; below two levels the "
+              "generator writes nothing (proved; witness replayed), and outside aliases_have_primary a visible alias is "
+              "written nowhere (the recorded finding).  The models are tied to the real crates on "
+              "every check: the extracted model's bash script, the fish file (byte for byte, incl. adversarial names), built tree and COMPREPLY lists are compared with the real "
+              "generator's output, Command::build and the installed bash; a python oracle written from the property text "
               "checks token coverage for all six shells and bash's replies per subcommand path and partial word.")
-LEVEL_NOTE = ("Partial: zsh/fish/PowerShell/elvish/nushell cannot be executed here and have no generator model (token "
-              "oracle only); bash itself is validated by execution, not proved; known findings (see known_findings.json) "
+LEVEL_NOTE = ("Partial: zsh/PowerShell/elvish/nushell have no generator model (token oracle only); fish has a byte-exact "
+              "generator model with theorems but cannot be executed here (what fish does with the complete lines is not "
+              "modelled); bash itself is validated by execution, not proved; known findings (see known_findings.json) "
               "are outside the proved class.")
